@@ -96,7 +96,18 @@ def build(rng, steps, ctx, final_ops, declared_dims_at):
                     cands.append(("mul", x, y))
                 if _qty.dim_add(ctx.classes[x]["dim"], ctx.classes[y]["dim"], -1) == d:
                     cands.append(("div", x, y))
-        if cands:
+        # ... or a pure power of one earlier type (X ** 3, X ** -2), whether or
+        # not the intermediate powers (X ** 2) are declared types
+        pows = []
+        for x in earlier:
+            dx = ctx.classes[x]["dim"]
+            for e in (-3, -2, 2, 3):
+                if {k_: e * v_ for k_, v_ in dx.items()} == d:
+                    pows.append(("pow", x, e))
+        if pows and (not cands or rng.random() < .7):
+            opn, x, e = rng.choice(pows)
+            targeted.setdefault(pos_cls[x], []).append((opn, x, e))
+        elif cands:
             opn, x, y = rng.choice(cands)
             at = max(pos_cls[x], pos_cls[y])
             targeted.setdefault(at, []).append((opn, x, y))
@@ -106,6 +117,12 @@ def build(rng, steps, ctx, final_ops, declared_dims_at):
             known_units.append(st["new_sym"])
         lin = [u for u in known_units if ctx.units[u]["scale"] is not None]
         for opn, x, y in targeted.get(k, []):
+            if opn == "pow":
+                ux = rng.choice([u for u in lin if ctx.units[u]["cls"] == x])
+                o = ["upow", ux, str(y), MODE]
+                ops.append(o); meta.append(("early", k))
+                sched.append(o)
+                continue
             ux = rng.choice([u for u in lin if ctx.units[u]["cls"] == x])
             uy = rng.choice([u for u in lin if ctx.units[u]["cls"] == y])
             if rng.random() < .5:
@@ -140,12 +157,22 @@ def build(rng, steps, ctx, final_ops, declared_dims_at):
     return ops, meta
 
 
+_N = [0]
+
+
 def gen_cases(rng, tier):
     n = 60 if tier == "thorough" else 16
     cases = []
     for _ in range(n):
         g = HistGen(rng, with_invalid=False, simple_derived=0.8)
         steps = [st for st in g.history(rng.randint(10, 20)) if st["expect"] == "ok"]
+        # every second history: a cube (or a negative square) of a base type
+        # whose square need not be a declared type
+        _N[0] += 1
+        if _N[0] % 2 == 0:
+            st = g.power_class(3 if _N[0] % 4 == 0 else -2)
+            if st is not None:
+                steps.append(st)
         w = g.w
         units = {s: dict(cls=u["cls"], scale=u["scale"]) for s, u in w.units.items()}
         classes = {c: dict(dim=v["dim"], ref=v["ref"], quantum=v["quantum"]) for c, v in w.classes.items()}
